@@ -28,6 +28,16 @@ def canon(x):
 
 def _init(factory, alphabet, enabled):
     global _AD, _ALPHA, _ENABLED
+    # a worker drives the implementation with hostile input too (attachment
+    # counts of 10^9 ...): if the implementation reserves memory in proportion
+    # to a declared number, the allocation fails here instead of taking the
+    # machine down, and shows as an exception the specification does not have
+    try:
+        import resource
+        lim = 3 << 30
+        resource.setrlimit(resource.RLIMIT_AS, (lim, lim))
+    except Exception:
+        pass
     _AD = factory()
     _ALPHA = alphabet
     _ENABLED = enabled
